@@ -126,8 +126,25 @@ func (e *Enc) lookupLocal(name string, b *ssa.BasicBlock, st *State) (TV, bool) 
 		wantAddr = true
 		name = name[1:]
 	}
-	for d := b.Idom(); d != nil; d = d.Idom() {
-		for i := len(d.Instrs) - 1; i >= 0; i-- {
+	first := true
+	for d := b.Idom(); d != nil || first; d = d.Idom() {
+		start := 0
+		if first {
+			first = false
+			if e.lookupIdx < 0 {
+				if d == nil {
+					break
+				}
+			} else {
+				// also scan the prefix of b itself (used by `assert ... at` clauses)
+				d = b
+				start = len(b.Instrs) - e.lookupIdx
+			}
+		}
+		if d == nil {
+			break
+		}
+		for i := len(d.Instrs) - 1 - start; i >= 0; i-- {
 			switch x := d.Instrs[i].(type) {
 			case *ssa.Phi:
 				if x.Comment == name {
